@@ -46,6 +46,26 @@ CLAIMED = {
              'Generator.cpp/Index.h re-checked each run',
         technique='CBMC function contracts (DFCC) on extracted C++ member functions, full-domain symbolic inputs, native replay on the real header',
         design='DESIGN.md §3 C08'),
+    'C25': dict(
+        text='Partial (node-local). Proof, for every sorted node of up to 4096 int keys (duplicates allowed) and every key, that the real '
+             'BTreeUtil.h search strategies — linear_search and binary_search, each operator()/lower_bound/upper_bound — return the least position '
+             'whose element is >= key (resp. > key; resp. a position holding the key or else the lower bound), stay within [a,b], write nothing '
+             'and terminate (loop invariants + variants, unbounded iterations), and that comparator<int> is a correct three-way comparison. '
+             'NOT covered: everything the property quantifies over in BTree.h — concurrent insertion, optimistic locking, splits, hints, '
+             'iteration order, size, chunk partitioning.',
+        note='instantiation Key=int; member templates hoisted to free functions and textually instantiated (R7); sortedness used by instantiation '
+             'at the ghost index; BTree.h itself is outside CBMC\'s C++ front end',
+        technique='CBMC function contracts (DFCC) on extracted C++ templates + loop-invariant/variant hooks with ghost index',
+        design='DESIGN.md §3 C25'),
+    'C28': dict(
+        text='Partial. Storage layer: proof of PiggyList<T>::get/createNode/append and RandomInsertPiggyList<T>::get/insertAt (T = unsigned long) — '
+             'addressing is the bijection index+2^16 = (2^16<<bn)+bi, the addressed block is allocated, growth keeps the representation invariant, '
+             'returns the old size, leaves existing blocks untouched, append stores the element (loop invariants, all sizes below 2^31-2^16). '
+             'NOT covered yet: the union-find closure (C29 unit), EquivalenceRelation iterators/partition cache/extendAndInsert, SparseDisjointSet.',
+        note='sequential contracts (no interference) for the growth functions; SpinLock as ghost mutex; operator new[] modelled as fresh allocation; '
+             'index + 2^16 < 2^31 (int shift in get())',
+        technique='CBMC function contracts (DFCC) on extracted C++ class templates + loop-invariant hooks + ghost indices',
+        design='DESIGN.md §3 C28'),
 }
 
 NA_PENDING = 'not claimed yet: the contract unit planned in DESIGN.md §3 has not been built'
